@@ -5,6 +5,7 @@ CONSTANTS
   D1s <- D01
   Svcs <- SimSvcs
   D2s <- D01
+  NearOffsets <- Near0123
   Weights <- W012
   ErrKinds <- ErrAll
   MaxErrors = 2
